@@ -285,7 +285,8 @@ Record shape (R : blob -> blob -> Prop) (s s' : storage) : Prop := mk_shape {
   sh_active : orel R (s_active s) (s_active s');
   sh_next : s_next s' = s_next s \/ s_next s' = s_next s + 1;
   sh_alive : s_alive s' = s_alive s;
-  sh_open : s_open s' = s_open s
+  sh_open : s_open s' = s_open s;
+  sh_qf : qf s' = qf s
 }.
 
 Lemma cb_F2 (R : blob -> blob -> Prop) l l' : Forall2 (orel R) l l' -> Forall2 R (cb l) (cb l').
@@ -304,7 +305,7 @@ Qed.
 Lemma shape_impl (R R' : blob -> blob -> Prop) s s' :
   (forall b b', R b b' -> R' b b') -> shape R s s' -> shape R' s s'.
 Proof.
-  intros HI [Hc Ha Hn Hl Ho]. constructor; try assumption.
+  intros HI [Hc Ha Hn Hl Ho Hq]. constructor; try assumption.
   - apply (F2_impl (orel R) (orel R')) with (2 := Hc). intros o o' [|b b' Hb]; constructor. apply HI, Hb.
   - destruct Ha as [|b b' Hb]; constructor. apply HI, Hb.
 Qed.
@@ -339,13 +340,13 @@ Qed.
 
 Lemma shape_ids (R : blob -> blob -> Prop) s s' : (forall b b', R b b' -> b_id b' = b_id b) -> shape R s s' -> IdsOk s -> IdsOk s'.
 Proof.
-  intros HI H [Hinc Hlt].
-  pose proof (F2_ids_eq R _ _ HI (shape_bio _ _ _ H)) as E.
-  split; [rewrite E; exact Hinc|].
-  intros Ho b' Hb'. rewrite (sh_open _ _ _ H) in Ho.
-  assert (Hin : In (b_id b') (map b_id (blobs_in_order s))) by (rewrite <- E; apply in_map, Hb').
-  apply in_map_iff in Hin. destruct Hin as (b & Eb & Hb). specialize (Hlt Ho b Hb).
-  destruct (sh_next _ _ _ H) as [En|En]; rewrite En; lia.
+  intros HI H HK. apply IdsOk_iff in HK. destruct HK as (Hinc & Hlt & H3 & H4 & H5 & H6).
+  pose proof (F2_ids_eq R _ _ HI (shape_bio _ _ _ H)) as E. fold (ids s') in E. fold (ids s) in E.
+  destruct (qf_inv _ _ (sh_qf _ _ _ H)) as (Eq & Eb & Ec).
+  apply IdsOk_iff. rewrite E, (sh_open _ _ _ H), Eq, Eb, Ec.
+  split; [exact Hinc|]. split; [|split; [|split; [exact H4|split; [exact H5|exact H6]]]].
+  - intros Ho i Hi. specialize (Hlt Ho i Hi). destruct (sh_next _ _ _ H) as [En|En]; rewrite En; lia.
+  - intros Ho q Hq. specialize (H3 Ho q Hq). destruct (sh_next _ _ _ H) as [En|En]; rewrite En; lia.
 Qed.
 
 (* ---------- building shapes ---------- *)
@@ -514,12 +515,13 @@ Record dshape (mk : rec) (oip : bool) (s s' : storage) : Prop := mk_dshape {
   dsh_active : orel (dstage mk oip) (s_active s) (s_active s');
   dsh_next : s_next s' = s_next s \/ s_next s' = s_next s + 1;
   dsh_alive : s_alive s' = s_alive s;
-  dsh_open : s_open s' = s_open s
+  dsh_open : s_open s' = s_open s;
+  dsh_qf : qf s' = qf s
 }.
 
 Lemma dshape_shape mk oip s s' : dshape mk oip s s' -> shape (stage_ok mk) s s'.
 Proof.
-  intros [Hc Ha Hn Hl Ho]. constructor; try assumption.
+  intros [Hc Ha Hn Hl Ho Hq]. constructor; try assumption.
   - apply (F2_impl (orel (dstage mk true)) (orel (stage_ok mk))) with (2 := Hc).
     intros o o' [|b b' Hb]; constructor. apply (dstage_ok _ _ _ _ Hb).
   - destruct Ha as [|b b' Hb]; constructor. apply (dstage_ok _ _ _ _ Hb).
@@ -589,16 +591,16 @@ Qed.
 
 Definition same_blobs (s s' : storage) : Prop :=
   s_closed s' = s_closed s /\ s_active s' = s_active s /\ s_next s' = s_next s /\
-  s_alive s' = s_alive s /\ s_open s' = s_open s.
+  s_alive s' = s_alive s /\ s_open s' = s_open s /\ qf s' = qf s.
 
 Lemma shape_same (R : blob -> blob -> Prop) s s1 s2 : shape R s s1 -> same_blobs s1 s2 -> shape R s s2.
 Proof.
-  intros [Hc Ha Hn Hl Ho] (E1 & E2 & E3 & E4 & E5). constructor; rewrite ?E1, ?E2, ?E3, ?E4, ?E5; assumption.
+  intros [Hc Ha Hn Hl Ho Hq] (E1 & E2 & E3 & E4 & E5 & E6). constructor; rewrite ?E1, ?E2, ?E3, ?E4, ?E5, ?E6; assumption.
 Qed.
 
 Lemma dshape_same mk oip s s1 s2 : dshape mk oip s s1 -> same_blobs s1 s2 -> dshape mk oip s s2.
 Proof.
-  intros [Hc Ha Hn Hl Ho] (E1 & E2 & E3 & E4 & E5). constructor; rewrite ?E1, ?E2, ?E3, ?E4, ?E5; assumption.
+  intros [Hc Ha Hn Hl Ho Hq] (E1 & E2 & E3 & E4 & E5 & E6). constructor; rewrite ?E1, ?E2, ?E3, ?E4, ?E5, ?E6; assumption.
 Qed.
 
 Lemma same_blobs_refl s : same_blobs s s.
@@ -818,7 +820,7 @@ Lemma safe_step s o :
   safe (fun k => op_key o <> Some k) s (fst (step K cfg s o)).
 Proof.
   intros Hp Ho HB. split; [intros k Hk; apply keeps_step; assumption|].
-  split; [apply step_good; intros l ->; discriminate Hp|].
+  split; [apply step_good; intros; exact Ho|].
   split; [apply step_ActiveInMemory|]. split; [apply alive_step; assumption|].
   split; [apply step_IdsOk|apply open_step; assumption].
 Qed.
